@@ -547,7 +547,7 @@ func c08CanvasProvenance(c *Ctx, p *Program) {
 		}
 	}
 	c.Floor("canvas-provenance", n, 2)
-	c.Floor("prev-canvas-fresh", m, 3)
+	c.Floor("prev-canvas-fresh", m, 2)
 }
 
 func c08EncoderState(c *Ctx, p *Program) {
@@ -563,7 +563,7 @@ func c08EncoderState(c *Ctx, p *Program) {
 	c08FrameNormalise(c, p)
 	for _, r := range rows {
 		if !r.used {
-			c.Fail("stale-table", "animstate:"+r.typ+":"+r.loc, "", "reviewed line no longer matches anything (remove it): "+r.typ+" "+r.loc)
+			c.Stale("animstate:"+r.typ+":"+r.loc)
 		}
 	}
 }
